@@ -119,7 +119,9 @@ def state_of(u):
 
 
 def from_state(st):
-    return impl.URL(SplitResult(*st), encoded=True)
+    """A FRESH object with an empty cache for this state (URL(SplitResult) alone would hand out one lru-shared object per state,
+    which accumulates whatever earlier operations cached on it)."""
+    return pickle.loads(pickle.dumps(impl.URL(SplitResult(*st), encoded=True)))
 
 
 def replay(seed, opnames):
@@ -218,6 +220,7 @@ def task_expand(modname, chunk):
                         getattr(mod, "pair_invariant", mod.state_invariant)(acc, r, (trace[0], ["<call, result dropped> " + n1, n2]))
         for oi, (name, fn) in enumerate(table):
             acc.transitions += 1
+            u = pickle.loads(pickle.dumps(u))   # every transition starts from a cold parent
             try:
                 r = fn(u)
             except (ValueError, TypeError):
